@@ -36,6 +36,7 @@ RULE = (
     "iteration.Engine.execute directly (twice, ordered and type-sensitive comparison, and against the member's first "
     "native execution) on members that live in iteration engines only, including transfers between iteration "
     "engines and user-defined marker relations. "
+    "  Trees returned by Processor.process enter the pool as members of their own (their transfer / materialization payloads are part of the fingerprint); factory steps are applied to those objects, and compile steps accept trees whose transfers and materializations all carry payloads. "
 )
 ASSUMPTIONS = [
     "materializations and leaves are explicitly named (auto-generated names are unique per call by design)",
